@@ -201,6 +201,33 @@ def gen_C07(w, tier):
                         return None
                     sc.pred = pred_fs
                     out.append(sc)
+    # a finish() that fails on a non-bytes argument still uses the instance up (implementation only: the model
+    # has no text strings; the requirement checked is the single-use discipline of the NEXT calls)
+    for ps in (toy, w.ps["ed"]):
+        for side in "ABS":
+            sc = w.scenario("C07/%s/%s/finish-str" % (ps.name, side), ("finish-with-str", "side:" + side))
+            s_ = sc.new(side, ps, b"pw", b"", b"", w.entropy_for(ps, 4))
+            sc.start(s_)
+            peer = peer_message(w, ps, side)
+            o1 = sc.do("finishstr %d %s" % (s_, hx(peer)), NONE)
+            o2 = sc.do("finish %d %s" % (s_, hx(peer)), NONE)
+            t_ = sc.new(side, ps, b"pw", b"", b"", w.entropy_for(ps, 4))
+            sc.start(t_)
+            sc.finish(t_, peer)
+            o3 = sc.do("finishstr %d %s" % (t_, hx(peer)), NONE)
+            sc.meta.update(o=(o1, o2, o3))
+
+            def pred_str(io, sc):
+                o1, o2, o3 = sc.meta["o"]
+                if o1.startswith("ok"):
+                    return "finish(<str>) returned a key"
+                if o2 != "raise:OnlyCallFinishOnce":
+                    return "finish() after a failed finish(<str>): %s (the instance must be used up)" % o2[:60]
+                if o3 != "raise:OnlyCallFinishOnce":
+                    return "finish(<str>) after a completed finish(): %s, not OnlyCallFinishOnce" % o3[:60]
+                return None
+            sc.pred = pred_str
+            out.append(sc)
     for ps in (w.ps["ed"], w.ps["1024"], w.ps.get("toyed389")):
         if ps is None:
             continue
